@@ -55,3 +55,31 @@ class get_opcode:
 
     raises = [(ScriptError, _nonminimal, True)]
     canaries = [(lambda: BitcoinScriptStreamer.decoder[5], "len(data) < size", "len(data) < size - 1")]
+
+
+# ---------------------------------------------------------------- the decoder reads back what compile_push_data wrote
+def push_roundtrip(data, rest, verify_minimal_data):
+    script = BitcoinScriptStreamer.compile_push_data(data) + rest
+    return BitcoinScriptStreamer.get_opcode(script, 0, verify_minimal_data=verify_minimal_data)
+
+
+@contract("contracts.c12_push:push_roundtrip")
+class c_push_roundtrip:
+    """decoding the minimal push of any data (followed by anything) gives the data back, stops right behind the push, reports
+    it well formed, and the minimal-push rule accepts it (no exception even when minimality is demanded)"""
+    props = ["C12"]
+    sig = dict(data=Bytes(sample_max=80, interesting=[b"", b"\x01", b"\x10", b"\x11", b"\x81", bytes(75), bytes(76), bytes(255), bytes(256)]),
+               rest=Bytes(sample_max=4), verify_minimal_data=Bool())
+
+    cases = [("empty", lambda data, rest, verify_minimal_data: len(data) == 0),
+             ("small int", lambda data, rest, verify_minimal_data: len(data) == 1 and ((1 <= data[0] and data[0] <= 16) or data[0] == 0x81)),
+             ("direct", lambda data, rest, verify_minimal_data: 1 <= len(data) and len(data) <= 75 and not (len(data) == 1 and ((1 <= data[0] and data[0] <= 16) or data[0] == 0x81))),
+             ("pushdata1", lambda data, rest, verify_minimal_data: 76 <= len(data) and len(data) <= 255)]
+    # (for data of 256 bytes and more -- OP_PUSHDATA2 / OP_PUSHDATA4 -- the read-back clause is left undecided by every solver within
+    #  the budget: those lengths are covered by the two contracts separately and by the bounded harness C12.push_roundtrip only)
+
+    def requires(data, rest, verify_minimal_data):
+        return len(data) <= 255
+
+    def ensures_read_back(data, rest, verify_minimal_data, result):
+        return (result[1] == data, result[2] == len(push_minimal(data)), result[3] == True, result[0] == push_minimal(data)[0])
